@@ -888,6 +888,9 @@ class FnTr:
         if not isinstance(s.target, ast.Name):
             raise Unsupported(f'`{self.inst.qual}`: loop target `{ast.unparse(s.target)}`')
         target = s.target.id
+        if target in self.env or target in assigned:
+            # (after the loop Python leaves the last item in the target: an outer variable of that name would change)
+            raise Unsupported(f'`{self.inst.qual}`: nested loop target `{target}` re-binds a variable')
         state = [n for n in self.env if n in assigned and n != target]
         if not state:
             raise Unsupported(f'`{self.inst.qual}`: nested loop without state')
@@ -955,6 +958,8 @@ class FnTr:
             raise Unsupported(f'truthiness of Optional[{inner}]')
         if v.typ == 'Td':
             return f'({v.text} != 0)'
+        if v.typ == 'Nat':
+            return f'({v.text} != (0 : Nat))'
         if v.typ in self.u.hooks.get('always_truthy', ()):
             return 'true'
         if v.typ.startswith('List '):
